@@ -18,10 +18,11 @@ RULE = ("Hypothesis-generated count-normalised rulesets, with and without --skip
         "structure and for every position the draw is swept over 0.0, every breakpoint (exact cumulative sum) +-{0, 1 ulp, "
         "1e-13}, every interval mid-point and 1-2^-53, and the selected structure / group must be the interval containing the "
         "draw (either neighbour within 1e-12 of a breakpoint) - the sampler is piecewise constant, so this pins every "
-        "derivation's probability; the in-group choice is scripted over every index. End-to-end: HoneywordSession.run(limit=N) "
+        "derivation's probability; where a draw lies above the (float) total of a list the walk must select the same group after a walk through the last groups as after a walk through the first groups (samples are independent); the in-group choice is scripted over every index. End-to-end: HoneywordSession.run(limit=N) "
         "must print exactly N words (N up to 2500, also on Markov-heavy grammars) of the model's non-Markov language in both modes; random_walk twice (and as CLI "
         "subprocesses, also with --load after an earlier cracking session of another ruleset / --all_lower left its save file, and for a ruleset that lists one value twice in a group) must be identical. Non-trivial = >=2 base structures and a group of >=2 values; distinct = hash of model.")
 ASSUMPTIONS = ["per variable the probabilities times group sizes add up to 1 (trainer output); the base list may add up to less than 1",
+               "a separately counted class has one terminal list pruned by hand (sum < 1): there the covered part of the unit interval is pinned to its groups, and for draws above the total the only requirement is that the same draws select the same derivation whatever was walked before on the grammar object",
                "for a sub-normalised base list 'its probability' is read as proportional to the listed value"]
 
 _DIR = None
@@ -88,7 +89,14 @@ def norm_rulesets(draw):
         drop = draw(st.integers(0, len(base) - 1))
         if base[drop][0] != 'M':
             del base[drop]
-    return {'model': m, 'subnormalised': sub, 'skip_brute': use_m and draw(st.booleans()), 'skip_case': draw(st.integers(0, 3)) == 0}
+    pruned = None
+    if draw(st.integers(0, 3)) == 0:
+        # one terminal list pruned by hand without renormalising: its groups cover only part of the unit interval
+        cand = sorted(k for k, gs in vars_.items() if len(gs) >= 2)
+        if cand:
+            pruned = cand[draw(st.integers(0, len(cand) - 1))]
+            del vars_[pruned][draw(st.integers(1, len(vars_[pruned]) - 1))]
+    return {'model': m, 'subnormalised': sub, 'skip_brute': use_m and draw(st.booleans()), 'skip_case': draw(st.integers(0, 3)) == 0, 'pruned_variable': pruned}
 
 
 def sweep(cum):
@@ -199,7 +207,8 @@ def prop_sampler(case, rec):
                 for p, vals in vs[t]:
                     acc += Fraction(p) * len(vals)
                     vcum.append(acc)
-                for u in sweep([c / vcum[-1] * 1 for c in vcum]):
+                # break points as the tool sees them (absolute); a pruned list leaves the top of the unit interval uncovered
+                for u in sweep([c / vcum[-1] * 1 for c in vcum] if vcum[-1] >= Fraction(999, 1000) else vcum + [Fraction(1)]):
                     script.draws[:] = [ub] + [0.0] * k + [u] + [0.0] * 12
                     pt = guard(case, g.random_walk)
                     n_eval += 1
@@ -211,6 +220,29 @@ def prop_sampler(case, rec):
                         # at or above the total up to rounding (the tool's left-to-right float sum can end one ulp below the
                         # draw, in which case it keeps group 0): a region of measure ~1e-16, any group is accepted there
                         ok = set(range(len(vcum)))
+                    if len(ok) == len(vcum) and len(vcum) >= 2:
+                        # in that region the walk may keep any group - but which one is decided by the draws alone, not by the walks
+                        # that came before on this grammar object (independent samples; word k of a session is the word its
+                        # seed gives): same draws after a walk through the LAST groups and after a walk through the FIRST groups
+                        def mid_last(t2):
+                            c2, a2 = [], Fraction(0)
+                            for p2, v2 in vs[t2]:
+                                a2 += Fraction(p2) * len(v2)
+                                c2.append(a2)
+                            return float(((c2[-2] if len(c2) > 1 else Fraction(0)) + c2[-1]) / 2)
+                        res2 = []
+                        for other in ([ub] + [mid_last(t2) for t2 in toks] + [0.0] * 12, [ub] + [0.0] * 24):
+                            script.draws[:] = list(other)
+                            guard(case, g.random_walk)
+                            script.draws[:] = [ub] + [0.0] * k + [u] + [0.0] * 12
+                            res2.append([list(x) for x in guard(case, g.random_walk)['pt']])
+                            n_eval += 2
+                        rec.cls('same_draws_after_different_walks')
+                        if float(sum(p2 * len(v2) for p2, v2 in vs[t])) < u:
+                            rec.cls('draw_above_the_total_of_the_groups')
+                        if res2[0] != res2[1]:
+                            raise Violation('walk_depends_on_history', f'structure {toks}, draws [{ub!r}, ..., position {k}: {u!r}]: after a walk through the last groups the walk '
+                                            f'selects {res2[0]}, after a walk through the first groups {res2[1]} - the same draws must select the same derivation', case)
                     if pt['pt'][k][1] not in ok:
                         raise Violation('group_selection', f'structure {toks} position {k} ({t}) draw u={u!r}: selected group {pt["pt"][k][1]}, expected {sorted(ok)} '
                                         f'(cumulative {[float(c) for c in vcum]})', case)
@@ -239,6 +271,7 @@ def prop_sampler(case, rec):
         pgm.random = saved
     multi = len(base) >= 2 and any(len(v) >= 2 for g_ in vs.values() for _, v in g_)
     cls = ['subnormalised_base' if case['subnormalised'] else 'normalised_base'] + (['skip_brute'] if sb else []) + (['skip_case'] if sc else []) + \
+          (['pruned_terminal_list'] if case.get('pruned_variable') else []) + \
           (['markov_in_base'] if any(t[0][0] == 'M' for t, _, _ in base) else [])
     rec.case(case, multi, cls, n=n_eval)
 
